@@ -6,6 +6,7 @@ From BV Require Import Proofs.PoolTick Proofs.PoolSem Proofs.PoolSize.
 From BV Require Import Proofs.PoolRefuted.
 From BV Require Gen.G_pool_shape.
 From BV Require Lib.PyVal Gen.K_worker Model.Worker Proofs.WorkerProofs.
+From BV Require Gen.G_pool_pins.
 Import ListNotations.
 Open Scope Z_scope.
 
@@ -120,3 +121,11 @@ Example C09_witness :
   let s := run c09_cfg c09_tr in
   (nprocs s, wlist s, used_idx s) = (3, [3; 4; 5], [0; 2; 3]).
 Proof. vm_compute. reflexivity. Qed.
+
+(* the parent-side functions of billiard/pool.py these theorems are about are, on this run, the very
+   text the hand-written model was read against and is validated against by the correspondence
+   (digests of their ASTs, translate/kernels/poolpins.py): any edit of one of them breaks this
+   obligation and starts the deeper search for a failing history *)
+Theorem C09_modelled_code_is_the_validated_text : G_pool_pins.modelled_code_of_C09 = true.
+Proof. reflexivity. Qed.
+Print Assumptions C09_modelled_code_is_the_validated_text.
